@@ -4,13 +4,16 @@ a failed open leaves the handle cleared and the data source unclosed.
 Bounded-exhaustive enumeration: (mutated physical streams: every page x every mutation operator, 1 deviation from an intact base
 file; every truncation length; every CRC-fixed single-byte substitution in the header packets and the first two audio packets;
 chains of 1..8 links incl. zero-sample links and repeated serial numbers; crafted set-up headers; valid multiplexed streams whose
-links open with 2..65 (thorough: ..258) BOS pages, pylib/c03_mux.py) x (open mode) x (ALL call
+links open with 2..65 (thorough: ..258) BOS pages, pylib/c03_mux.py; encoder-made links re-paged into one-packet / split-packet / three-page-packet /
+natural pages with one junk run of a 10-kind alphabet in every page gap and a sweep of every seek kind over the page-boundary positions on fresh
+and reused handles, pylib/c03_junk.py) x (open mode) x (ALL call
 sequences up to depth 2 (3 thorough) over a public-API alphabet), each executed on the REAL library under ASan + UBSan-subset with a
 per-case CPU watchdog (harness/c03_extra.c).  Streams are mutated in Python with the framework's independent Ogg page writer."""
 import os, sys, json, time, itertools, hashlib, collections
 import vlib, zoo
 import c03_lib as L
 import c03_mux as MUX
+import c03_junk as JUNKP
 from vlib import Page
 
 PID = 'C03'
@@ -385,6 +388,15 @@ def run(tier):
     stats['mux_phase_wall_s'] = round(time.time() - t_mux, 1)
     stage_wall = {'build_and_generate_pass1': round(t_mux - t0, 1), 'phase_N_generate_and_run': stats['mux_phase_wall_s']}
     t_st = time.time()
+    # ---------------------------------------------------------------- J. junk position x page structure product (pylib/c03_junk.py, executor
+    # harness/c03_junk.c): generated, run and judged right here, like phase N before the deadline-cut passes; its guards are binding
+    junk_on = not (DEV and 'J' not in DEV.split(','))
+    junk_guard, junk_text = JUNKP.run(chk, tier, judge_op, DOC_OPEN, NAME, crash_key, hang_key) if junk_on else (True, '')
+    stage_wall['phase_J_generate_run_judge'] = round(time.time() - t_st, 1)
+    if tier == 'quick' and junk_on:
+        # family J must not eat the older phases' share: their cap moves by what J took (at most 40 s of 16-core time)
+        chk.deadline += min(stage_wall['phase_J_generate_run_judge'], 40 * 16 / max(1, vlib.NPROC))
+    t_st = time.time()
 
     # ================================================================= run pass 1
     res = L.run_batches(exe, lf, cases[:n_pass1], timeout_s=WD, chunk=300, tag='c03a', deadline=chk.deadline) + resN
@@ -660,6 +672,9 @@ def run(tier):
         for k, n in kc.most_common():
             print(f'  [{n}] {k}: ' + next(d for kk, d, _ in chk.violations if kk == k)[:600], file=sys.stderr)
     rc = chk.finish()
+    if rc == 0 and not junk_guard:
+        print(f'BROKEN-CHECK property={PID} vacuity guard failed: {junk_text}', file=sys.stderr)
+        rc = 2
     if rc == 0 and mux_on and not mux_guard:
         # finish() downgrades unmet guards of a run cut by its deadline; this one does not depend on the deadline
         print(f'BROKEN-CHECK property={PID} vacuity guard failed: no successful open of a link with >= 5 BOS pages in every open mode: {dict(mux_ok5)}', file=sys.stderr)
@@ -803,6 +818,8 @@ def replay(path):
     exe = vlib.harness('asan', 'c03_extra')
     d = os.path.join(vlib.zoo_dir(), 'c03_replay')
     os.makedirs(d, exist_ok=True)
+    if r['recipe'].get('base') == 'junkpage':
+        return JUNKP.replay(r, judge_op, DOC_OPEN)
     if r['recipe'].get('base') == 'many_links':
         vlib.build('plain')
         m = many_links_case(r['recipe']['links'])
